@@ -34,3 +34,184 @@ Proof. intros; split; [now apply rank_select_mono_e | now apply rank_select_mono
 (* non-vacuity of the rank rule on a concrete spectrum: squared weights 9,4,1,1 and budget e^2 = 2 drop two entries *)
 Example C02_rank_select_ex : rank_select OR [9; 4; 1; 1]%R 2%R 10%Z = 2%nat.
 Proof. exact rank_select_ex1. Qed.
+
+(* ---------------------------------------------------------------------------------------------
+   The right-to-left sweep of truncate with the matrix factorisation abstracted (gsweep; trunc_sweep is the
+   instance with matrix_svd / matrix_skeleton(give_to='l'), theorem C02_trunc_sweep_is_gsweep).
+   Contract of one factorisation (fact_ok):  U V = M V^T V,  the rows of V are pairwise orthogonal and each has norm 1
+   or is zero (a zero row belongs to a retained zero singular value), consistent dimensions;  fact_contract adds 1 <= q <= min(rows, cols), q <= max(1, cap) and
+   |M - U V|_F^2 <= delta2 whenever the returned rank is below the cap.
+   For every chain Zs (any length m+1, any open right rank rl) whose cores 0..m-1 are left-orthonormal:
+   same shape, chain ranks, every new rank between 1 and the old one and at most max(1, cap), and
+   |Zs - W|_F^2 <= m * delta2  when no returned rank reaches the cap (Pythagoras over the sweep steps).
+   --------------------------------------------------------------------------------------------- *)
+From TV Require Import Proofs.TransformationP Proofs.OrthP Proofs.FrobP Proofs.TruncP2 Proofs.TruncP3 Model.Wf.
+
+Theorem C02_trunc_sweep_is_gsweep : forall T (K : ops T) svdo eigh argsort e rcap (b : bool) n Zs k,
+  trunc_sweep K svdo eigh argsort Zs e rcap b k n =
+  gsweep K (fun k M => if b then matrix_svd K eigh argsort k M e rcap
+                       else matrix_skeleton K svdo k M e rcap false GiveL) Zs k n.
+Proof. intros. apply trunc_sweep_gsweep. Qed.
+
+Theorem C02_sweep_error : forall (fact : nat -> mat R -> mat R * mat R) (delta2 : R) (rcap : Z),
+  fact_contract fact delta2 rcap ->
+  forall m (Zs : list (core R)) rl, length Zs = S m -> chain 1 Zs rl -> posdims Zs ->
+  (forall i, (i < m)%nat -> lorth OR (nth i Zs dcore)) ->
+  let W := gsweep OR fact Zs m m in
+  length W = S m /\ chain 1 W rl /\ shape W = shape Zs /\
+  (forall k, (1 <= k <= m)%nat ->
+     (1 <= cr1 (nth k W dcore))%nat /\ (cr1 (nth k W dcore) <= cr1 (nth k Zs dcore))%nat /\
+     (cr1 (nth k W dcore) <= cn (nth k Zs dcore) * cr2 (nth k W dcore))%nat /\
+     (Z.of_nat (cr1 (nth k W dcore)) <= Z.max 1 rcap)%Z) /\
+  ((forall k, (1 <= k <= m)%nat -> (Z.of_nat (cr1 (nth k W dcore)) < rcap)%Z) ->
+   (dist2o OR Zs W rl <= INR m * delta2)%R).
+Proof. exact gsweep_spec. Qed.
+
+(* ---------------------------------------------------------------------------------------------
+   truncate(Y, e, r, orth=True, use_stab=False, is_eigh) on a valid TT-tensor (d >= 2, every mode size and rank >= 1),
+   for every qr / rq routine meeting the QR / RQ contract and every eigh / argsort / svd routine for which the
+   factorisation of the chosen mode meets fact_contract with delta2 = e'^2 (the generic form, conditional on that
+   contract: _cond; C02_truncate_error below discharges it for both modes from the LAPACK contracts):
+   the call succeeds, same length and shape, chain from rank 1 to rank 1, every rank between 1 and the input rank
+   and at most max(1, int(r)); and if no returned rank reaches the cap,  |Y - W|_F^2 <= e^2 |Y|_F^2.
+   --------------------------------------------------------------------------------------------- *)
+Theorem C02_truncate_error_cond :
+  forall (svdo : nat -> mat R -> mat R * list R * mat R) (eigh : nat -> mat R -> list R * mat R)
+         (argsort : nat -> list R -> list nat) (qr rq : nat -> mat R -> mat R * mat R)
+         (ilog2 : nat -> R -> Z) (pow2frac : Z -> nat -> R),
+  (forall k A, qr_ok OR A (fst (qr k A)) (snd (qr k A))) ->
+  (forall k A, rq_ok OR A (fst (rq k A)) (snd (rq k A))) ->
+  forall (rcap : Z) (is_eigh : bool),
+  (forall e', (0 <= e')%R -> fact_contract (factE svdo eigh argsort rcap is_eigh e') (e' * e')%R rcap) ->
+  forall (Y : list (core R)) (e : R), wfI (shape Y) Y -> (2 <= length Y)%nat -> (0 <= e)%R ->
+  exists W, truncate OR svdo eigh argsort qr rq ilog2 pow2frac Y e rcap true false is_eigh = Ok W /\
+    length W = length Y /\ chain 1 W 1 /\ shape W = shape Y /\
+    (forall k, (1 <= k < length Y)%nat ->
+       (1 <= cr1 (nth k W dcore))%nat /\ (cr1 (nth k W dcore) <= cr1 (nth k Y dcore))%nat /\
+       (Z.of_nat (cr1 (nth k W dcore)) <= Z.max 1 rcap)%Z) /\
+    ((forall k, (1 <= k < length Y)%nat -> (Z.of_nat (cr1 (nth k W dcore)) < rcap)%Z) ->
+     (dist2 OR Y W <= e * e * tnorm2 OR Y)%R).
+Proof. exact truncate_error_gen. Qed.
+
+(* ---------------------------------------------------------------------------------------------
+   matrix_skeleton(A, e, r, rel=False, give_to='l') for every svd routine meeting the thin-SVD contract svd_ok
+   (A = U diag(s) Vt, orthonormal columns of U and rows of Vt, len(s) = min(m, n)) meets the factorisation contract
+   with delta2 = e^2:  U V = A V^T V,  V V^T = I,  1 <= q <= min(m, n), q <= max(1, int(r)),
+   |A - U V|_F^2 = sum of the discarded s_c^2 <= e^2 when q < int(r).
+   --------------------------------------------------------------------------------------------- *)
+From TV Require Import Lin.BigSum Proofs.TruncP4.
+Theorem C02_matrix_skeleton_contract : forall (svdo : nat -> mat R -> mat R * list R * mat R),
+  (forall k A, svd_ok OR A (fst (fst (svdo k A))) (snd (fst (svdo k A))) (snd (svdo k A))) ->
+  forall (rcap : Z) (e' : R), (0 <= e')%R ->
+  fact_contract (fun k M => matrix_skeleton OR svdo k M e' rcap false GiveL) (e' * e')%R rcap.
+Proof. exact skeleton_contract. Qed.
+
+Theorem C02_matrix_skeleton_residual : forall (A U : mat R) (s : list R) (V : mat R), svd_ok OR A U s V ->
+  forall q, (1 <= q)%nat -> (q <= length s)%nat ->
+  fact_ok OR A (skelU OR U s q) (skelV OR V q) /\
+  res2 OR A (skelU OR U s q) (skelV OR V q) = bsum OR (length s - q) (fun c => sq OR (nth (q + c) s 0%R)).
+Proof. intros A U s V HS q H1 H2. split; [now apply (skel_fact_ok OR OR_rng)|now apply (skel_res2 OR OR_rng)]. Qed.
+
+(* SVD mode (is_eigh=False, the repaired give_to='l'), orth=True, use_stab=False: only the LAPACK contracts are assumed *)
+Theorem C02_truncate_error_svd :
+  forall (svdo : nat -> mat R -> mat R * list R * mat R) (eigh : nat -> mat R -> list R * mat R)
+         (argsort : nat -> list R -> list nat) (qr rq : nat -> mat R -> mat R * mat R)
+         (ilog2 : nat -> R -> Z) (pow2frac : Z -> nat -> R),
+  (forall k A, qr_ok OR A (fst (qr k A)) (snd (qr k A))) ->
+  (forall k A, rq_ok OR A (fst (rq k A)) (snd (rq k A))) ->
+  (forall k A, svd_ok OR A (fst (fst (svdo k A))) (snd (fst (svdo k A))) (snd (svdo k A))) ->
+  forall (rcap : Z) (Y : list (core R)) (e : R), wfI (shape Y) Y -> (2 <= length Y)%nat -> (0 <= e)%R ->
+  exists W, truncate OR svdo eigh argsort qr rq ilog2 pow2frac Y e rcap true false false = Ok W /\
+    length W = length Y /\ chain 1 W 1 /\ shape W = shape Y /\
+    (forall k, (1 <= k < length Y)%nat ->
+       (1 <= cr1 (nth k W dcore))%nat /\ (cr1 (nth k W dcore) <= cr1 (nth k Y dcore))%nat /\
+       (Z.of_nat (cr1 (nth k W dcore)) <= Z.max 1 rcap)%Z) /\
+    ((forall k, (1 <= k < length Y)%nat -> (Z.of_nat (cr1 (nth k W dcore)) < rcap)%Z) ->
+     (dist2 OR Y W <= e * e * tnorm2 OR Y)%R).
+Proof. exact truncate_error_svd. Qed.
+
+(* non-vacuity: a concrete thin SVD meeting svd_ok, and the rank-1 factorisation it yields (fact_ok, residual^2 = 1) *)
+Example C02_svd_ok_ex : svd_ok OR exA exI [3; 1]%R exI.
+Proof. exact svd_ok_ex. Qed.
+Example C02_fact_ok_ex : fact_ok OR exA (skelU OR exI [3; 1]%R 1) (skelV OR exI 1) /\
+  res2 OR exA (skelU OR exI [3; 1]%R 1) (skelV OR exI 1) = 1%R.
+Proof. exact fact_ok_ex. Qed.
+
+(* ---------------------------------------------------------------------------------------------
+   matrix_svd(A, e, r) (eigen-decomposition mode) meets the same factorisation contract, for every eigh routine that
+   returns an orthogonal eigen-decomposition of every symmetric matrix (C U = U diag(w), U^T U = U U^T = I; no order
+   of the eigenvalues assumed) and every argsort routine returning a permutation of the positions: both branches
+   (m <= n: C = A A^T, V = diag(1/w where w > 0) U_q^T A, U = U_q diag(w);  m > n: C = A^T A, U = A U_q, V = U_q^T),
+   clipping of negative eigenvalues, sqrt, the guarded reciprocal (a retained zero weight gives a zero row of V).
+   --------------------------------------------------------------------------------------------- *)
+From TV Require Import Proofs.TruncP5 Model.ActOne.
+Theorem C02_matrix_svd_contract : forall (eigh : nat -> mat R -> list R * mat R) (argsort : nat -> list R -> list nat),
+  (forall k C, msym C -> eigh_ok C (fst (eigh k C)) (snd (eigh k C))) ->
+  (forall k l, argsort_ok l (argsort k l)) ->
+  forall (rcap : Z) (e' : R), (0 <= e')%R ->
+  fact_contract (fun k M => matrix_svd OR eigh argsort k M e' rcap) (e' * e')%R rcap.
+Proof. exact svd_contract. Qed.
+
+(* truncate(Y, e, r, orth=True, use_stab=False, is_eigh) in BOTH modes, only the LAPACK contracts assumed *)
+Theorem C02_truncate_error :
+  forall (svdo : nat -> mat R -> mat R * list R * mat R) (eigh : nat -> mat R -> list R * mat R)
+         (argsort : nat -> list R -> list nat) (qr rq : nat -> mat R -> mat R * mat R)
+         (ilog2 : nat -> R -> Z) (pow2frac : Z -> nat -> R),
+  (forall k A, qr_ok OR A (fst (qr k A)) (snd (qr k A))) ->
+  (forall k A, rq_ok OR A (fst (rq k A)) (snd (rq k A))) ->
+  (forall k A, svd_ok OR A (fst (fst (svdo k A))) (snd (fst (svdo k A))) (snd (svdo k A))) ->
+  (forall k C, msym C -> eigh_ok C (fst (eigh k C)) (snd (eigh k C))) ->
+  (forall k l, argsort_ok l (argsort k l)) ->
+  forall (rcap : Z) (is_eigh : bool) (Y : list (core R)) (e : R),
+  wfI (shape Y) Y -> (2 <= length Y)%nat -> (0 <= e)%R ->
+  exists W, truncate OR svdo eigh argsort qr rq ilog2 pow2frac Y e rcap true false is_eigh = Ok W /\
+    length W = length Y /\ chain 1 W 1 /\ shape W = shape Y /\
+    (forall k, (1 <= k < length Y)%nat ->
+       (1 <= cr1 (nth k W dcore))%nat /\ (cr1 (nth k W dcore) <= cr1 (nth k Y dcore))%nat /\
+       (Z.of_nat (cr1 (nth k W dcore)) <= Z.max 1 rcap)%Z) /\
+    ((forall k, (1 <= k < length Y)%nat -> (Z.of_nat (cr1 (nth k W dcore)) < rcap)%Z) ->
+     (dist2 OR Y W <= e * e * tnorm2 OR Y)%R).
+Proof. exact truncate_error. Qed.
+
+(* add_many: every rounding step (the c-th call of truncate inside add_many, eigen-decomposition mode, cap int(1e12) for
+   the intermediate ones and int(r) for the last) obeys the same bound; the result of add_many is the last rounding step
+   applied to the running sum, which the loop only changes by [add] and by rounding steps (C02_add_many_loop_step). *)
+Theorem C02_add_many_step :
+  forall (svdo : nat -> nat -> mat R -> mat R * list R * mat R) (eigh : nat -> nat -> mat R -> list R * mat R)
+         (argsort : nat -> nat -> list R -> list nat) (qr rq : nat -> nat -> mat R -> mat R * mat R)
+         (ilog2 : nat -> nat -> R -> Z) (pow2frac : Z -> nat -> R),
+  (forall c k A, qr_ok OR A (fst (qr c k A)) (snd (qr c k A))) ->
+  (forall c k A, rq_ok OR A (fst (rq c k A)) (snd (rq c k A))) ->
+  (forall c k C, msym C -> eigh_ok C (fst (eigh c k C)) (snd (eigh c k C))) ->
+  (forall c k l, argsort_ok l (argsort c k l)) ->
+  forall (c : nat) (rcap : Z) (Y : list (core R)) (e : R),
+  wfI (shape Y) Y -> (2 <= length Y)%nat -> (0 <= e)%R ->
+  exists W, trunc_call OR svdo eigh argsort qr rq ilog2 pow2frac c Y e rcap = Ok W /\
+    length W = length Y /\ chain 1 W 1 /\ shape W = shape Y /\
+    (forall k, (1 <= k < length Y)%nat ->
+       (1 <= cr1 (nth k W dcore))%nat /\ (cr1 (nth k W dcore) <= cr1 (nth k Y dcore))%nat /\
+       (Z.of_nat (cr1 (nth k W dcore)) <= Z.max 1 rcap)%Z) /\
+    ((forall k, (1 <= k < length Y)%nat -> (Z.of_nat (cr1 (nth k W dcore)) < rcap)%Z) ->
+     (dist2 OR Y W <= e * e * tnorm2 OR Y)%R).
+Proof. exact add_many_step. Qed.
+
+Theorem C02_add_many_final : forall svdo eigh argsort qr rq ilog2 pow2frac (Y0 : list (core R)) rest e rcap freq W,
+  add_many OR svdo eigh argsort qr rq ilog2 pow2frac (Y0 :: rest) e rcap freq = Ok W ->
+  exists Y' nc, add_many_loop OR svdo eigh argsort qr rq ilog2 pow2frac e freq O O (copy Y0) rest = Ok (Y', nc) /\
+    trunc_call OR svdo eigh argsort qr rq ilog2 pow2frac nc Y' e rcap = Ok W.
+Proof. exact add_many_final. Qed.
+
+Theorem C02_add_many_loop_step : forall svdo eigh argsort qr rq ilog2 pow2frac (e : R) freq i nc Y Yc rest',
+  add_many_loop OR svdo eigh argsort qr rq ilog2 pow2frac e freq i nc Y (Yc :: rest') =
+  if Nat.eqb freq 0 then Err OtherError else
+  if Nat.eqb (Nat.modulo (S i) freq) 0 then
+    match trunc_call OR svdo eigh argsort qr rq ilog2 pow2frac nc (add OR Y Yc) e default_cap with
+    | Err er => Err er
+    | Ok Y2 => add_many_loop OR svdo eigh argsort qr rq ilog2 pow2frac e freq (S i) (S nc) Y2 rest'
+    end
+  else add_many_loop OR svdo eigh argsort qr rq ilog2 pow2frac e freq (S i) nc (add OR Y Yc) rest'.
+Proof. exact add_many_loop_step. Qed.
+
+(* non-vacuity of the eigh / argsort contracts *)
+Example C02_eigh_ok_ex : msym exC /\ eigh_ok exC [9; 1]%R exI /\ argsort_ok [3; 1]%R [1; 0]%nat.
+Proof. exact eigh_ok_ex. Qed.
